@@ -97,24 +97,24 @@ theorem vote_transaction (H : Bytes → Bytes) (s : State) (id : Bytes) (a : Add
 
 /-- No other transaction touches a vote ledger entry. -/
 theorem other_transactions_dont_vote (H : Bytes → Bytes) (s : State) (op : Op) (id : Bytes) (h : ∀ a, op ≠ .vote id a)
-    (hd : ∀ sg r c cc, op ≠ .deposit sg r c id cc)
+    (hd : ∀ sg r c cc k, op ≠ .deposit sg r c id cc k)
     (hf : ∀ sg a chain view fee, op = .fee sg a chain view fee →
       strBytes "updateFee" ++ u64le chain ++ u64le (feeRound s a chain view fee).fv ≠ id) :
     voteEntry (step H s op) id = voteEntry s id := by
   unfold voteEntry; rw [votes_sigs_frame H s op id h hd hf]
 
-/-- The vote handler (VoteHandler.MakeDepositProposal) hands a source transaction on only when the relayer signed, is a
+/-- The vote handler (VoteHandler.MakeDepositProposal) and the vote phase of ripple_handler.MakeDepositProposal hand a source transaction on only when the relayer signed, is a
 current consensus validator, and its vote is the one that releases the ledger entry (first quorum); a transaction
 already marked done, or a payload that does not decode, is refused (and the vote reverted). -/
 theorem deposit_released_only_at_quorum (H : Bytes → Bytes) (s : State) (sg : List Addr) (relayer : Addr) (chain : Nat)
-    (id : Bytes) (ccid : Option Bytes) (o : Out) (h : exec H s (.deposit sg relayer chain id ccid) = .ok o)
+    (id : Bytes) (ccid : Option Bytes) (cont : Bool) (o : Out) (h : exec H s (.deposit sg relayer chain id ccid cont) = .ok o)
     (hr : o.ret = "1") :
     witness sg relayer = true ∧ (voteEntry s id).1 = false ∧
     ∃ gv pool cons info c, curPool s = some (gv, pool) ∧ consAddrs s pool = some cons ∧
-      voteStep (voteEntry s id) cons relayer = some (info, true) ∧ ccid = some c ∧ (chain, c) ∉ s.doneTx ∧
+      voteStep (voteEntry s id) cons relayer = some (info, true) ∧ ccid = some c ∧ (chain, c) ∉ s.doneTx ∧ cont = true ∧
       o.st = { s with votes := alPut s.votes id info, doneTx := s.doneTx ++ [(chain, c)] } := by
   unfold voteEntry
-  cases hp : plan H s (.deposit sg relayer chain id ccid) with
+  cases hp : plan H s (.deposit sg relayer chain id ccid cont) with
   | error e => simp [exec, hp] at h
   | ok p =>
     simp only [exec, hp] at h
@@ -123,8 +123,8 @@ theorem deposit_released_only_at_quorum (H : Bytes → Bytes) (s : State) (sg : 
     all_goals try (cases hp; done)
     all_goals (injection hp with hp; subst hp; simp only [runPlan] at h; injection h with h; subst h)
     all_goals try (simp at hr; done)
-    rename_i hw hst _ gv pool hcp _ cons hca _ info hvs _ c hdone
-    refine ⟨by simpa using hw, by simpa using hst, gv, pool, cons, info, c, hcp, hca, hvs, rfl, by simpa using hdone, rfl⟩
+    rename_i hw hst _ gv pool hcp _ cons hca _ info hvs _ c hdone hcont
+    refine ⟨by simpa using hw, by simpa using hst, gv, pool, cons, info, c, hcp, hca, hvs, rfl, by simpa using hdone, by simpa using hcont, rfl⟩
 
 /-- Fee proposals (side_chain_manager.UpdateFee, another caller of CheckVotes): a proposal needs the witness of its
 address and the current fee view; a new fee (five times the median of the view's proposals) is installed, and the view
